@@ -44,6 +44,8 @@ pub enum Fault {
     ResetFlow { by_app: bool },
     /// accept() fails with EMFILE `n` times on the client's (true) or server's (false) TCP listener
     AcceptErr { on_client: bool, n: u32 },
+    /// QUIC cells: datagrams to the server's QUIC port - random bytes, or something shaped like a long-header Initial packet
+    DgramToServer { bytes: Vec<u8>, n: u32 },
 }
 
 pub fn fault_name(f: &Fault) -> String {
@@ -54,6 +56,7 @@ pub fn fault_name(f: &Fault) -> String {
         Fault::BadTarget { fault } => format!("target-{fault}"),
         Fault::ResetFlow { by_app } => format!("reset-by-{}", if *by_app { "application" } else { "target" }),
         Fault::AcceptErr { on_client, .. } => format!("accept-emfile-{}", if *on_client { "client" } else { "server" }),
+        Fault::DgramToServer { bytes, .. } => format!("{}-datagrams-to-quic-port", if bytes.first().is_some_and(|b| b & 0xc0 == 0xc0) { "initial-like" } else { "garbage" }),
     }
 }
 
@@ -70,6 +73,17 @@ fn raw_kind(b: &[u8]) -> &'static str {
 }
 
 pub fn gen_fault(g: &mut Gen, transport: Transport) -> Fault {
+    if transport == Transport::Quic && g.chance(25) {
+        let n = g.range(1, 1300) as usize;
+        let mut bytes = g.bytes(n);
+        if g.chance(50) && bytes.len() > 7 {
+            // long header, Initial, version 1, then whatever
+            bytes[0] = 0xc0 | (bytes[0] & 0x0f);
+            bytes[1..5].copy_from_slice(&[0, 0, 0, 1]);
+            bytes[5] = 8;
+        }
+        return Fault::DgramToServer { bytes, n: g.range(1, 20) as u32 };
+    }
     match g.below(12) {
         0 => Fault::ConnectClose { to_client: g.chance(50), n: g.range(1, 5) as u32 },
         1 => Fault::StalledLocal { bytes: g.pick(&[vec![5u8], vec![5, 2, 0], vec![5, 1, 0, 5, 1], b"GET http://exa".to_vec(), b"CONNECT a.b:1 HTTP/1.1\r\nHost".to_vec()]).clone() },
@@ -104,7 +118,7 @@ pub fn gen_c08(seed: u64, thorough: bool) -> Plan {
     let mut g = Gen::new(seed, 8);
     let cells = all_proto_ciphers();
     let (proto, cipher) = cells[(seed as usize) % cells.len()];
-    let transport = TCP_TRANSPORTS[((seed as usize) / cells.len()) % TCP_TRANSPORTS.len()];
+    let transport = ALL_TRANSPORTS[((seed as usize) / cells.len()) % ALL_TRANSPORTS.len()];
     let config = gen_config(&mut g, proto, cipher, transport, 0);
     // every fault alone first (the catalogue cycles), then sequences
     let n = if (seed / 40) % 2 == 0 { 1 } else { g.range(2, if thorough { 8 } else { 5 }) } as usize;
@@ -186,6 +200,18 @@ async fn inject(ix: usize, f: &Fault, held: &mut Held) {
             held._tasks.push(spawn_scoped(run_app(120 + ix, fl, obs, true)));
             tokio::time::sleep(Duration::from_millis(500)).await;
         }
+        Fault::DgramToServer { bytes, n } => {
+            if let Ok(s) = octo_squirrel::verif::net::UdpSocket::bind(SocketAddr::new(IpAddr::V4(Ipv4Addr::LOCALHOST), 0)).await {
+                for i in 0..*n {
+                    let mut b = bytes.clone();
+                    if let Some(x) = b.last_mut() {
+                        *x = x.wrapping_add(i as u8);
+                    }
+                    let _ = s.send_to(&b, server_addr()).await;
+                }
+            }
+            tokio::time::sleep(Duration::from_millis(5)).await;
+        }
         Fault::AcceptErr { on_client, n } => {
             world::with(|w| w.add_fault(FaultKind::AcceptErr, if *on_client { CLIENT_PORT } else { SERVER_PORT }, 255, *n));
             // the error surfaces when the next connection arrives
@@ -252,7 +278,7 @@ pub fn execute_c08(plan: &Plan) -> Outcome {
         // simulated minutes pass with the stalled connections still open
         tokio::time::sleep(Duration::from_secs(1)).await;
         let after = canary(1).await;
-        let bound = (tcp_listening(CLIENT_PORT), tcp_listening(SERVER_PORT));
+        let bound = (tcp_listening(CLIENT_PORT), if plan.config.transport == Transport::Quic { udp_bound(SERVER_PORT) } else { tcp_listening(SERVER_PORT) });
         let finished = (mains.client.is_finished(), mains.server.is_finished());
         drop(held);
         (None, Some(before), Some(after), bound, finished)
